@@ -79,4 +79,11 @@ CHECKS = {
                  "float boundaries and random deep call trees on outputters re-used after complete and abandoned documents are executed on the real JSONOutput; "
                  "TLC compares the encoding/json parse of each output with TreeOf(calls) leaf by leaf.",
          "note": "Trusted base: TLC; encoding/json as the independent JSON parser; the harness's tree projection. Strings that are not valid UTF-8 are only required to give a valid document."},
+ "C13": {"technique": "TLA+ JSON data-model matcher (JMatch) over the parse tree of real Descriptor.Read + JSONOutput output, for three ways of obtaining the descriptor",
+         "text": "For every enumerated and random (type, value) the marshalled bytes are rendered through the descriptor taken directly, after a plenc round trip and "
+                 "after an encoding/json round trip; the output must be valid JSON and TLC matches its encoding/json parse against the model's JSON image of the "
+                 "value: objects keyed by field name with omitted fields absent, arrays element for element, string-keyed maps as objects, other maps as key/value "
+                 "lists, pointers as their target, times as the same instant, integers exact, floats bit-exact.",
+         "note": TB + " Preconditions of the statement are observed by the harness (finite floats, years 1..9999, UTF-8); open findings F18 (repeated form), F20 (negative narrow flat ints), "
+                 "F21 (ProtoCompatibleTime) are named deviations in the spec; recursive types have no finite descriptor (F16)."},
 }
